@@ -27,7 +27,7 @@ CHECKS = {
              "meaning (so a silently dropped or mis-encoded constraint is a counterexample). At-most-one/clauses/implications: "
              "exact projection for every group size in the bound. solve/value/evalexpr: every model a correct SAT solver may return.",
         note="n<=3 (4 thorough) literal occurrences, coefficient-decomposition coefficients bounded to [-7,7]; PySAT replaced by "
-             "a contract stub returning an arbitrary model; history bounded to 1-2 earlier encodings sharing the diagram store.",
+             "a contract stub returning an arbitrary model; history bounded to 1-2 earlier encodings sharing the diagram store, with symbolic and with concrete coefficients (textual memo keys), every path of the history cases in a forked process.",
         design="5/C07"),
     'C06': dict(
         text="Bounded symbolic model checking of the real create_stog/find_location on lists of n rectangles in every order: one "
@@ -61,7 +61,7 @@ CHECKS = {
              "most one and (if in the die) in the closure of at least one, areas sum to the die, every input region is reported "
              "unchanged with its tag in its own list; invalid descriptions (sticking out, overlapping) are rejected on every path.",
         note="<=2 regions quick / 3 thorough from generated placements over symbolic breakpoints; fixed regions come through the "
-             "real Netlist loader; exact reals with margin 0.01; decimal-rounding clause decided separately by the FP kernel when present.",
+             "real Netlist loader; exact reals with margin 0.01; in addition a binary64 kernel (QF_BVFP, z3+cvc5) runs the real inside test of Die._check_rectangles on decimal coordinates n/10, n/100 (n < 2^8 quick, 2^10-2^11 thorough) and proves that a region mathematically inside or touching the border is never judged outside.",
         design="5/C01"),
     'C11': dict(
         text="Bounded symbolic model checking of the real split_rectangles / Die.split_refinable_regions / initial_grid with symbolic "
@@ -102,7 +102,7 @@ CHECKS = {
     'C19': dict(
         text="For every producer in reach - Die.write_yaml, Allocation.write_yaml (before/after refine and griddify), every netgen "
              "topology at every size where it is defined (n<=6, grids <=3x3, h-tree <=2 levels), dump_yaml_namededges, "
-             "rect_io.solution_to_netlist / get_netlist and the legaliser's get_netlist - the real writer runs on a design with "
+             "rect_io.solution_to_netlist / get_netlist, the legaliser's get_netlist and Netlist.write_yaml - the real writer runs on a design with "
              "symbolic numbers, the real reader loads the result, and z3 proves field-by-field equality with what was written, "
              "that producing the document does not alter the source object and that producing it twice gives identical documents.",
         note="write_yaml is the identity on trees symbolically (real YAML text in every replay); string-built YAML is parsed by the "
@@ -114,7 +114,7 @@ CHECKS = {
              "legaliser equations at a symbolic configuration, calls receiving mutable defaults) is executed on the same symbolic "
              "design after a symbolic history (class-wide Rectangle tolerances left by a design of scale within a factor 1000, "
              "earlier encodings in the diagram store, an earlier legaliser model, earlier default-argument calls) and from the "
-             "import-time state; z3 proves the observables equal. Margin mode: any difference is a violation. Band mode (no "
+             "import-time state (replays compute the reference in a really fresh interpreter; state probes run every path in a forked process); z3 proves the observables equal. Margin mode: any difference is a violation. Band mode (no "
              "separation margin): the tolerance-caused difference is the recorded known finding, and the companion obligation "
              "'same result when the tolerances are forced equal' must still be proved.",
         note="history length one (inductive step), probes at the quick bounds of their own properties; state changed other than "
